@@ -95,7 +95,7 @@ def oracle(case, meta, out):
     return None
 
 
-def run(chk, replay=None):
+def run_prim(chk, replay=None):
     gate, hb = core.std_setup(chk)
     rng = random.Random(chk.seed)
     n = 20000 if chk.tier == "quick" else 300000
@@ -154,3 +154,16 @@ def run(chk, replay=None):
                           dict(kind="proof", theorem_file="coq/Properties/C09.v", failed=gate.get("failed"),
                                error=gate.get("error"), theorems=gate["theorems"]), no_input=True)
     return chk.finish()
+
+
+def run(chk, replay=None):
+    """primitive level (value interpreter over the runtime API) + generated-code level (code emitted by the real
+    pilota-build, gen family); a replay file belongs to exactly one of them"""
+    from .. import genextra
+    is_gen = replay is not None and isinstance(replay.get("case"), dict)
+    parts = []
+    if replay is None or not is_gen:
+        parts.append(("primitive", lambda c: run_prim(c, replay)))
+    if replay is None or is_gen:
+        parts.append(("generated", lambda c: genextra.run_c09g(c, replay, prop="C09")))
+    return chk.run_parts(parts)
